@@ -330,3 +330,82 @@ Proof.
     apply rlt_spec. left. rewrite Ec, Ed. change (acc_rank ([n_seg c] ++ s1)) with (acc_rank [n_seg c]). change (acc_rank ([n_seg d] ++ s2)) with (acc_rank [n_seg d]).
     rewrite Forall_forall in Al. specialize (Al d Hd). unfold by_rank, top_ltb in Al. rewrite Ec, Ed in Al. lia.
 Qed.
+
+(* ------------------------------------------------------------ the rows of the table = all_rows *)
+
+Section Order.
+  Variables (cfg : balance_cfg) (ds : list sdirective) (r : report) (part : partition) (dl : list directive).
+  Hypothesis Hv : bc_valuation cfg = None.
+  Hypothesis Halpha : bc_alpha cfg = true.
+  Hypothesis Hrun : balance_report cfg ds = COk (r, part).
+  Hypothesis Hp : parse_directives ds = MOk dl.
+  Hypothesis Hsyn : postings_syntactic dl.
+
+  Let es := ledger_entries cfg dl part.
+  Let rc := balance_render_cfg cfg.
+  Let al := filter is_AL_entry es.
+  Let eie := filter (fun e => negb (is_AL_entry e)) es.
+
+  Lemma ledger_row_entry x : ledger_row cfg dl x <-> exists e, In e es /\ In x (prefixes_from [] (e_acc e)).
+  Proof.
+    destruct (report_cells cfg ds r part Hv Hrun) as (dl' & Hp' & Hpart & _). rewrite Hp in Hp'. inversion Hp'; subst dl'. clear Hp'.
+    unfold ledger_row. rewrite Hpart. fold (ledger_entries cfg dl part). fold es.
+    split; intros ([[[col a] c] v] & He & Hx); exists (col, a, c, v); (split; [exact He|exact Hx]).
+  Qed.
+
+  Lemma tree_rows_order (b : bool) :
+    map l_path (flat_map tree_lines (n_children (if b then sorted_al rc r else sorted_eie rc r))) =
+    all_rows (if b then al else eie).
+  Proof.
+    pose proof (balance_report_ok _ _ _ _ Hrun) as ((W1 & W2 & P1 & P2) & S1 & S2 & T1 & T2 & _).
+    pose proof (Hacc cfg ds r part dl Hv Hrun Hp Hsyn) as Hok.
+    pose proof (Hrows cfg ds r part dl Hv Hrun Hp Hsyn) as Hrw.
+    rewrite clines_paths. apply rsorted_ext.
+    - unfold sorted_al, sorted_eie, rc, balance_render_cfg. cbn [rc_alpha rc_valuation]. rewrite Halpha, Hv.
+      destruct b; apply root_rows_sorted; try assumption; intros x Hx; apply Hok; unfold rows; apply in_or_app; [left|right]; exact Hx.
+    - apply all_rows_sorted.
+    - intros x. rewrite all_rows_in.
+      assert (Hside : In x (cpaths (n_children (if b then sorted_al rc r else sorted_eie rc r))) <->
+                      In x (rows r) /\ is_AL x = b).
+      { destruct b; unfold sorted_al, sorted_eie; rewrite cpaths_sort_in; unfold rows; rewrite in_app_iff; split.
+        - intros H. split; [left; exact H|exact (T1 x H)].
+        - intros [[H|H] E]; [exact H|rewrite (T2 x H) in E; discriminate].
+        - intros H. split; [right; exact H|exact (T2 x H)].
+        - intros [[H|H] E]; [rewrite (T1 x H) in E; discriminate|exact H]. }
+      rewrite Hside, Hrw, ledger_row_entry. split.
+      + intros [(e & He & Hx) Hb]. exists e. split; [|exact Hx].
+        assert (Hty : is_AL_entry e = b).
+        { destruct e as [[[col a] c] v]. unfold e_acc in Hx. cbn [fst snd] in Hx. cbn [is_AL_entry]. rewrite <- (prefixes_from_type _ _ Hx). exact Hb. }
+        destruct b; unfold al, eie; apply filter_In; (split; [exact He|]); rewrite Hty; reflexivity.
+      + intros (e & He & Hx).
+        assert (He' : In e es /\ is_AL_entry e = b).
+        { destruct b; unfold al, eie in He; apply filter_In in He; destruct He as [H1 H2]; (split; [exact H1|]);
+            [exact H2|destruct (is_AL_entry e); [discriminate|reflexivity]]. }
+        destruct He' as [He1 He2]. split; [exists e; split; assumption|].
+        destruct e as [[[col a] c] v]. unfold e_acc in Hx. cbn [fst snd] in Hx. cbn [is_AL_entry] in He2.
+        rewrite (prefixes_from_type _ _ Hx). exact He2.
+  Qed.
+
+  (* the records of the CSV are the rows of ledger_csv *)
+  Theorem csv_rows_are_ledger_rows :
+    exists rows, ledger_csv cfg dl = Some rows /\ render_csv_rows (render_report rc r (end_dates part)) = rows.
+  Proof.
+    exact (csv_rows_ledger cfg ds r part dl Hv Hrun Hp Hsyn (tree_rows_order true) (tree_rows_order false)).
+  Qed.
+End Order.
+
+(* the text that `knut balance --csv -a` prints = the text of the ledger's CSV *)
+Theorem balance_csv_is_ledger_csv cfg ds text :
+  bc_valuation cfg = None -> bc_alpha cfg = true ->
+  balance_csv cfg ds = COk text ->
+  exists dl,
+    parse_directives ds = MOk dl /\
+    (postings_syntactic dl ->
+     exists rows, ledger_csv cfg dl = Some rows /\ text = concat (map (fun rec => join [44] rec ++ [10]) rows)).
+Proof.
+  intros Hv Ha H. unfold balance_csv in H. apply cbind_ok in H. destruct H as (t & Ht & H). inversion H; subst text. clear H.
+  unfold balance_table in Ht. apply cbind_ok in Ht. destruct Ht as ([r part] & Hrun & Ht). cbn [fst snd] in Ht. inversion Ht; subst t. clear Ht.
+  destruct (balance_report_parsed _ _ _ _ Hrun) as (dl & Hp). exists dl. split; [exact Hp|]. intros Hsyn.
+  destruct (csv_rows_are_ledger_rows cfg ds r part dl Hv Ha Hrun Hp Hsyn) as (rows & Hl & Hr).
+  exists rows. split; [exact Hl|]. unfold render_csv. rewrite <- Hr. reflexivity.
+Qed.
